@@ -55,6 +55,7 @@ typedef ikos::interleaved_fwd_fixpoint_iterator<TCFG, GV> IT;
 typedef ikos::interleaved_fwd_fixpoint_iterator_impl::wto_iterator<TCFG, GV> WI;
 template class ikos::wto_cycle<TCFG>;
 template class ikos::wto_vertex<TCFG>;
+template class ikos::interleaved_fwd_fixpoint_iterator_impl::wto_iterator<TCFG, GV>;
 extern "C" {
 void fv_visit_cycle(WI *self, ikos::wto_cycle<TCFG> *c) { self->WI::visit(*c); }
 void fv_visit_vertex(WI *self, ikos::wto_vertex<TCFG> *v) { self->WI::visit(*v); }
